@@ -240,13 +240,19 @@ type Case struct {
 	Pts [][2]int64 `json:"pts"`
 	T   string     `json:"transform"`
 	// Layout of the slice handed to the library: 0 = cap == len, 1 = eight elements of spare capacity,
-	// 2 = a prefix of a longer slice whose tail holds other points
+	// 2 = a prefix of a longer slice whose tail holds other points, 3 = a buffer that has been
+	// triangulated before while it held other points inside the same bounding box (the points were
+	// then moved in place)
 	Layout int `json:"layout,omitempty"`
 	// Family names a structured (non-lattice) point set (families.go); empty for lattice subsets
 	Family string `json:"family,omitempty"`
 }
 
-var layoutNames = [3]string{"exact-capacity", "spare-capacity", "prefix-of-longer-slice"}
+var layoutNames = [4]string{"exact-capacity", "spare-capacity", "prefix-of-longer-slice", "buffer-triangulated-before-with-other-points"}
+
+// pairwiseLimit: above this many triangles the quadratic interior-overlap test is replaced by its
+// linear consequence for consistently wound triangles (no directed edge used twice).
+const pairwiseLimit = 600
 
 type checker struct{ c *core.Ctx }
 
@@ -308,6 +314,26 @@ func evaluate(pts []P, tr transform, layout int) (label string, fs []finding, tr
 	for i, p := range pts {
 		mine[i] = tr.apply(p)
 		in[i] = mine[i]
+	}
+	if layout == 3 {
+		// an earlier frame: the points that do not attain the bounding box change places cyclically
+		// (same buffer, same length, same bounding box), the buffer is triangulated, and then the
+		// points of this case are written over it in place
+		var xmin, xmax, ymin, ymax int64 = pts[0].X, pts[0].X, pts[0].Y, pts[0].Y
+		for _, p := range pts {
+			xmin, xmax, ymin, ymax = min(xmin, p.X), max(xmax, p.X), min(ymin, p.Y), max(ymax, p.Y)
+		}
+		var inner []int
+		for i, p := range pts {
+			if p.X != xmin && p.X != xmax && p.Y != ymin && p.Y != ymax {
+				inner = append(inner, i)
+			}
+		}
+		for j, i := range inner {
+			in[i] = mine[inner[(j+1)%len(inner)]]
+		}
+		core.Guard(func() { triangulation.BowyerWatson(in) })
+		copy(in, mine)
 	}
 	var mesh modeling.Mesh
 	var idx []int
@@ -401,7 +427,20 @@ func evaluate(pts []P, tr transform, layout int) (label string, fs []finding, tr
 		}
 	}
 	// overlap
-	for x := 0; x < len(solid); x++ {
+	if len(solid) > pairwiseLimit {
+		used := make(map[[2]int]int, 3*len(solid))
+		for _, i := range solid {
+			t := good[i]
+			for e := 0; e < 3; e++ {
+				d := [2]int{t[e], t[(e+1)%3]}
+				if j, dup := used[d]; dup {
+					add(clOverlap, "triangles %v and %v both run along the directed edge %v: consistently wound triangles sharing a directed edge overlap", good[j], t, d)
+				}
+				used[d] = i
+			}
+		}
+	}
+	for x := 0; x < len(solid) && len(solid) <= pairwiseLimit; x++ {
 		for y := x + 1; y < len(solid); y++ {
 			i, j := solid[x], solid[y]
 			if !InteriorsDisjoint(geo[i], geo[j]) {
@@ -410,6 +449,7 @@ func evaluate(pts []P, tr transform, layout int) (label string, fs []finding, tr
 		}
 	}
 	// empty circumcircles
+circles:
 	for _, i := range solid {
 		g, t := geo[i], good[i]
 		s := sgn(Orient(g[0], g[1], g[2]))
@@ -418,7 +458,8 @@ func evaluate(pts []P, tr transform, layout int) (label string, fs []finding, tr
 				continue
 			}
 			if sgn(InCircle(g[0], g[1], g[2], pts[q]))*s > 0 {
-				add(clDelaunay, "input point %d = %v lies strictly inside the circumcircle of triangle %v = %v (triangles %v)", q, pts[q], t, g, good)
+				add(clDelaunay, "input point %d = %v lies strictly inside the circumcircle of triangle %v = %v (triangles %v)", q, pts[q], t, g, trimTris(good))
+				break circles // one finding per clause
 			}
 		}
 	}
@@ -439,6 +480,14 @@ func evaluate(pts []P, tr transform, layout int) (label string, fs []finding, tr
 		label = "ok-hull-not-covered"
 	}
 	return label, nil, tris, ""
+}
+
+// trimTris keeps violation details of large triangulations readable.
+func trimTris(t [][3]int) any {
+	if len(t) > 40 {
+		return fmt.Sprintf("%v … (%d triangles)", t[:40], len(t))
+	}
+	return t
 }
 
 func ptsOf(cs Case) []P {
@@ -639,7 +688,7 @@ func run(c *core.Ctx) {
 					rev[len(pts)-1-i] = p
 				}
 				for _, tr := range layoutTransforms {
-					for layout := 1; layout <= 2; layout++ {
+					for layout := 1; layout <= 3; layout++ {
 						k.checkAs(pts, tr, "", layout, "")
 						k.checkAs(rev, tr, "", layout, "")
 					}
@@ -652,9 +701,12 @@ func run(c *core.Ctx) {
 		}
 	}
 	c.Bound("general_position_subsets", gpCount)
-	c.Bound("input_slice_layouts", "every general-position subset also with eight elements of spare capacity and as a prefix of a longer slice (canonical order and its reverse, transforms identity and scale=2^-10,offset=(+2^10,-2^10))")
+	c.Bound("input_slice_layouts", "every general-position subset also with eight elements of spare capacity, as a prefix of a longer slice, and in a buffer that was triangulated before while its inner points stood elsewhere (canonical order and its reverse, transforms identity and scale=2^-10,offset=(+2^10,-2^10))")
 	if done {
 		k.runFamilies()
+	}
+	if !c.Expired() {
+		k.runCounts()
 	}
 }
 
